@@ -225,10 +225,18 @@ def gen_anchor(g, f):
 
 
 def gen_fault(g, cfg):
-    kinds = ["request-abort", "soft-fail-abort", "conn-fatal", "params-raise", "runner-raise", "store-raise", "rc-store-raise", "prep-fail", "worker-kill", "interrupt"]
+    kinds = ["request-abort", "abort-after-complete", "soft-fail-abort", "conn-fatal", "params-raise", "runner-raise", "store-raise", "rc-store-raise", "prep-fail", "worker-kill", "interrupt"]
     kind = g.pick(kinds)
     tasks = [t for _, _, t in leaf_tasks(cfg["schedule"]) if t["op"] in ("sim-op", "raw-request") and "sim" in t]
     f = {"kind": kind}
+    if kind == "abort-after-complete":
+        # a request of a task that is being cut by completed-by fails (on-error=abort) after its worker has handled CompleteCurrentTask
+        victims = [t["name"] for el in cfg["schedule"] if "parallel" in el and el["parallel"].get("completed-by") for t in el["parallel"]["tasks"] if t["op"] in ("sim-op", "raw-request") and "sim" in t and t["name"] != el["parallel"]["completed-by"]]
+        if victims:
+            cfg["on_error"] = "abort"
+            cfg["fault"] = {"kind": kind, "tasks": sorted(victims), "status": g.pick([400, 500])}
+            return
+        kind = f["kind"] = "request-abort"
     if kind in ("request-abort", "soft-fail-abort", "conn-fatal", "params-raise", "runner-raise"):
         if kind in ("runner-raise", "soft-fail-abort"):
             tasks = [t for t in tasks if t["op"] == "sim-op"]
@@ -449,6 +457,22 @@ class RaceHarness(Harness):
             c = json.loads(json.dumps(base))
             c["fault"] = {"kind": "rc-store-raise", "at_call": at}
             yield c
+        # a request of a task that is being cut by completed-by fails after its worker has handled CompleteCurrentTask
+        cb = json.loads(json.dumps(base))
+        cb["schedule"] = [
+            {"task": {"name": "t0", "op": "sim-op", "clients": 2, "iterations": 2, "tags": [], "sim": {"task": "t0", "unit": "ops"}}},
+            {"parallel": {"completed-by": "t1", "tasks": [
+                {"name": "t1", "op": "sim-op", "clients": 2, "iterations": 5, "tags": [], "sim": {"task": "t1", "unit": "ops"}},
+                {"name": "t2", "op": "raw-request", "clients": 3, "time-period": 300, "warmup-time-period": 0, "target-interval": 0.05, "tags": [], "sim": {"task": "t2", "unit": "ops"}},
+                {"name": "t4", "op": "sim-op", "clients": 1, "iterations": 100000, "target-interval": 0.2, "tags": [], "sim": {"task": "t4", "unit": "ops"}}]}},
+            {"task": {"name": "t3", "op": "sim-op", "clients": 2, "iterations": 2, "tags": [], "sim": {"task": "t3", "unit": "ops"}}},
+        ]
+        cb["on_error"] = "abort"
+        for rep in range(6):
+            for status in (400, 500):
+                c = json.loads(json.dumps(cb))
+                c["fault"] = {"kind": "abort-after-complete", "tasks": ["t2", "t4"], "status": status, "rep": rep}
+                yield c
         # the narrowest window: the cancellation is handled by race control, the completion message is already on its way and arrives
         # before the exit request.  Whether a placement hits it depends on three message delays: many placements, several seeds each
         for rep in range(4):
@@ -688,6 +712,23 @@ class RaceHarness(Harness):
             system.on_handled = handled
             system.on_send = on_send_observe
             sim_clock.append(system.clock)
+            if fault and fault["kind"] == "abort-after-complete":
+
+                def late(w):
+                    parts = w.path.strip("/").split("/")
+                    if state.get("late_fired") or parts[0] != "_sim" or parts[1] not in fault["tasks"]:
+                        return None
+                    for T, waid, _ei in cct:
+                        cell = worker_cells.get(waid)
+                        if cell is not None and cell.proc is not None and cell.proc.name == w.proc:
+                            # the response arrives after the worker has handled CompleteCurrentTask (the request was in flight then, or
+                            # it is the one further request whose throttle sleep was already running)
+                            state["late_fired"] = True
+                            fired["request_error_abort_after_complete"] = 1
+                            return fault["status"]
+                    return None
+
+                simes.late_policy = late
             if not fault:
                 return
             k = fault["kind"]
